@@ -4,6 +4,7 @@ import (
 	"fmt"
 	"hash/fnv"
 	"io"
+	"os"
 	"runtime"
 	"strings"
 	"sync"
@@ -41,6 +42,7 @@ type job struct {
 	seq      string // result when run alone
 	seqAfter bool   // the run-alone result is taken after the concurrent phase (no warm-up of any cache)
 	reset    bool   // battle: run, Reset, respawn and run again; both runs must give the same result
+	debug    bool   // battle: the library's debug reporter is attached (it prints a trace to standard output)
 	expect   string // battle: result of the reference MARS (independent of any history)
 }
 
@@ -78,9 +80,12 @@ func (j *job) run() (res string) {
 		wd, err := g.ParseLoadFile(strings.NewReader(j.text), j.cfg)
 		return sumWarrior(wd, err)
 	case jkBattle:
-		s, err := g.NewSimulator(j.cfg)
+		s, err := g.NewReportingSimulator(j.cfg)
 		if err != nil {
 			return "cfg-error"
+		}
+		if j.debug {
+			s.AddReporter(g.NewDebugReporter(s))
 		}
 		var ws []g.Warrior
 		for _, wd := range j.shared {
@@ -169,6 +174,12 @@ func sameWD(a, b g.WarriorData) bool {
 }
 
 func runC14(c *Ctx) {
+	if c.Only < 0 {
+		// some battle jobs attach the library's debug reporter, which prints to standard output: nobody reads it
+		if null, err := os.OpenFile(os.DevNull, os.O_WRONLY, 0); err == nil {
+			os.Stdout = null
+		}
+	}
 	// first of all, before this process has used gmars for anything: the cold-start bursts
 	if c.Only < 0 {
 		children := 6
@@ -493,6 +504,7 @@ func runC14(c *Ctx) {
 				jb.C = r.Range(1, 200)
 				j.cfg = jb.config()
 				j.reset = r.Chance(1, 2)
+				j.debug = r.Chance(1, 4) && jb.C <= 60 // traced battles are kept short: every report prints a line
 				n := r.Range(1, len(sharedPool))
 				ref := mars.NewBattle(jb.M, jb.P, jb.C, jb.R, jb.W)
 				for i := 0; i < n; i++ {
